@@ -1,3 +1,179 @@
-"""Axis-kind consistency rules (C01.R5, C04.R2, C07.R1) -- filled in by axis.py."""
-def add_obligations(res, tree, rule, scope="all"):
-    return 0
+"""Axis-kind consistency rules (C01.R5, C04.R2, C07.R1): check sites over the value-flow graph."""
+from __future__ import annotations
+
+from typing import Dict, List, Optional, Tuple
+
+from ..axis import Axes
+from ..engine import EnvAnalysis, analyse_env
+from ..loader import AnalysisError, short
+from ..normal import ext_name, linear, strip_cast
+from ..terms import T, deps, mk
+from .common import analyses, txt
+
+# environments whose grid has two distinct extent symbols (strict typing applies)
+STRICT = ["Maze", "Cleaner", "Snake", "Tetris", "Minesweeper", "FlatPack", "PacMan", "RobotWarehouse"]
+MASK_FUNC_HINTS = ("mask", "is_move_valid", "is_valid", "valid")
+
+
+def env_axes(ea: EnvAnalysis) -> Tuple[Axes, List[T]]:
+    vfg = ea.vfg
+    roots = [ea.reset_result, ea.step_result]
+    for spec in ("observation_spec", "action_spec"):
+        try:
+            roots.append(vfg.mk_attr(ea.self_t, spec))
+        except Exception:
+            pass
+    ax = Axes(vfg, roots)
+    ax.note_vectors_from_components()
+    return ax, roots
+
+
+def site_of(t: T) -> Tuple[str, str, str]:
+    m = t.meta or {}
+    return m.get("loc", "?"), short(m.get("func", "?")), m.get("src", "")
+
+
+def check_sites(ea: EnvAnalysis, ax: Axes, conflicts) -> List[dict]:
+    """All typed check sites of one environment: dicts(kind, term, ok, detail)."""
+    out = []
+    A = {0: "axis 0 (rows)", 1: "axis 1 (columns)"}
+    for t in list(ax.terms.values()):
+        k = t.kind
+        if k == "cmp" and t.args[0] in ("<", "<=", ">", ">="):
+            a, b = t.args[1], t.args[2]
+            ka, kb = ax.kind(a), ax.kind(b)
+            if ka and kb and {ka[0], kb[0]} == {"idx", "ext"}:
+                ok = ka[1] == kb[1]
+                idx, ext = (a, b) if ka[0] == "idx" else (b, a)
+                out.append(dict(kind="bounds test", term=t, ok=ok,
+                                detail=f"index {txt(idx, 3, 50)} is on {A[ax.axis(idx)]} [{ax.reason(idx)[:70]}]; extent {txt(ext, 3, 40)} is {A[ax.axis(ext)]} [{ax.reason(ext)[:50]}]"))
+        elif k == "bin" and t.args[0] == "%":
+            a, b = t.args[1], t.args[2]
+            ka, kb = ax.kind(a), ax.kind(b)
+            if ka and kb and ka[0] == "idx" and kb[0] == "ext":
+                ok = ka[1] == kb[1]
+                out.append(dict(kind="wrap-around", term=t, ok=ok,
+                                detail=f"index {txt(a, 3, 50)} is on {A[ka[1]]} [{ax.reason(a)[:70]}]; modulus {txt(b, 3, 40)} is the extent of {A[kb[1]]} [{ax.reason(b)[:50]}]"))
+        elif k == "call" and ext_name(t) in ("jax.numpy.divmod", "builtins.divmod") and len(t.args[1]) == 2:
+            E = t.args[1][1]
+            kE = ax.kind(E)
+            if kE and kE[0] == "ext":
+                out.append(dict(kind="unflatten", term=t, ok=kE[1] == 1,
+                                detail=f"divmod(flat, E) yields (row, col) only for E = number of columns; E = {txt(E, 3, 40)} is the extent of {A[kE[1]]} [{ax.reason(E)[:50]}]"))
+        elif k == "bin" and t.args[0] in ("//",):
+            E = t.args[2]
+            kE = ax.kind(E)
+            kr = ax.kind(t)
+            if kE and kE[0] == "ext" and kr and kr[0] == "idx" and kr[1] == 0:
+                out.append(dict(kind="unflatten", term=t, ok=kE[1] == 1,
+                                detail=f"flat // E is a row only for E = number of columns; E = {txt(E, 3, 40)} is the extent of {A[kE[1]]}"))
+        elif k == "bin" and t.args[0] == "+":
+            # flatten r*E + c
+            for x, y in ((t.args[1], t.args[2]), (t.args[2], t.args[1])):
+                sx = strip_cast(x)
+                if sx.kind == "bin" and sx.args[0] == "*":
+                    for r, E in ((sx.args[1], sx.args[2]), (sx.args[2], sx.args[1])):
+                        kE, kr, kc = ax.kind(E), ax.kind(r), ax.kind(y)
+                        if kE and kE[0] == "ext" and kr and kr[0] == "idx" and kc and kc[0] == "idx":
+                            ok = kE[1] == 1 and kr[1] == 0 and kc[1] == 1
+                            out.append(dict(kind="flatten", term=t, ok=ok,
+                                            detail=f"{txt(r, 2, 30)}*{txt(E, 2, 30)} + {txt(y, 2, 30)}: multiplier is the extent of {A[kE[1]]}, scaled index on {A[kr[1]]}, added index on {A[kc[1]]}; row-major needs row*num_cols + col"))
+    for f, pn, pv, caller, node, have, want in conflicts:
+        pass
+    return out
+
+
+def add_obligations(res, tree, rule: str, scope: str = "all") -> int:
+    """scope: 'all' (C07.R1), 'mask' (C04.R2: sites inside mask/validity functions), 'spec' (C01.R5)."""
+    n = 0
+    per_env: Dict[str, int] = {}
+    seen_global = set()
+    for ea in analyses(tree):
+        if ea.cls.name not in STRICT:
+            continue
+        ax, roots = env_axes(ea)
+        conflicts = ax.bind_conflicts()
+        sites = check_sites(ea, ax, conflicts) if scope in ("all", "mask") else []
+        env = short(ea.cls.qual)
+        seen = set()
+        for s in sites:
+            loc, fn, src = site_of(s["term"])
+            if scope == "mask" and not any(h in fn.lower() for h in MASK_FUNC_HINTS):
+                continue
+            key = (s["kind"], fn, src)
+            if key in seen or key in seen_global:
+                continue
+            seen.add(key)
+            seen_global.add(key)
+            res.add(rule, loc, fn, f"{s['kind']}: {src}", s["ok"], s["detail"])
+            n += 1
+            per_env[ea.cls.name] = per_env.get(ea.cls.name, 0) + 1
+        if scope == "all":
+            for f, pn, pv, caller, node, have, want in conflicts:
+                loc = f"{caller.module.relpath}:{getattr(node, 'lineno', 0)}" if caller is not None and node is not None else f.loc()
+                key = ("bind", f.qual, pn, loc)
+                if key in seen or key in seen_global:
+                    continue
+                seen.add(key)
+                seen_global.add(key)
+                ok = have == want
+                res.add(rule, loc, short(caller.qual) if caller is not None else env, f"argument for parameter '{pn}' of {f.name}: {txt(pv, 3, 60)}", ok,
+                        f"argument is the extent of axis {have} [{ax.reason(pv)[:60]}]; the parameter name means axis {want}")
+                n += 1
+                per_env[ea.cls.name] = per_env.get(ea.cls.name, 0) + 1
+        if scope in ("all", "spec"):
+            k = spec_bound_obligations(res, ea, ax, rule if scope == "spec" else rule)
+            n += k
+            per_env[ea.cls.name] = per_env.get(ea.cls.name, 0) + k
+    res.extra.setdefault("axis_sites_per_environment", {}).update({f"{rule}:{k}": v for k, v in per_env.items()})
+    return n
+
+
+def spec_bound_obligations(res, ea: EnvAnalysis, ax: Axes, rule: str) -> int:
+    """Bound <-> axis agreement for coordinate fields of the observation spec: the extent used in the
+    maximum of a field must be the extent of the axis that field is used to index."""
+    vfg = ea.vfg
+    tree = vfg.tree
+    spec = vfg.mk_attr(ea.self_t, "observation_spec")
+    n = 0
+    # field -> axis, from attr nodes `<something>.<field>` that were typed as indices
+    field_axis: Dict[Tuple[str, str], set] = {}
+    for t in ax.terms.values():
+        if t.kind == "attr":
+            kd = ax.kind(t)
+            ci = vfg.typeof(t.args[0])
+            if kd and kd[0] == "idx" and ci is not None and tree.is_record(ci):
+                why = ax.reason(t)
+                if why.startswith("field name"):
+                    continue
+                field_axis.setdefault((ci.qual, t.args[1]), set()).add(kd[1])
+
+    def walk(s: T, path: str):
+        nonlocal n
+        if s.kind != "new":
+            return
+        cq = s.args[0]
+        args, kw = s.args[1], dict(s.args[2])
+        if cq == "jumanji.specs.Spec":
+            ctor = args[0] if args else kw.get("constructor")
+            for name, child in kw.items():
+                if name in ("constructor", "name"):
+                    continue
+                if child.kind == "new" and child.args[0] == "jumanji.specs.BoundedArray" and ctor is not None and ctor.kind == "cls":
+                    ca, ck = child.args[1], dict(child.args[2])
+                    mx = ck.get("maximum", ca[3] if len(ca) > 3 else None)
+                    axes = field_axis.get((ctor.args[0], name))
+                    if mx is not None and axes and len(axes) == 1:
+                        fa = next(iter(axes))
+                        E = ax.kind(mx)
+                        if E and E[0] == "ext":
+                            ok = E[1] == fa
+                            f = tree.find_method(ea.cls, "observation_spec")
+                            res.add(rule, f.loc() if f else ea.cls.loc(), short(ea.cls.qual) + ".observation_spec",
+                                    f"bound of coordinate field {ctor.args[0].split('.')[-1]}.{name}: maximum {txt(mx, 3, 40)}", ok,
+                                    f"field '{name}' indexes axis {fa} in the step/reset closure; its maximum uses the extent of axis {E[1]} [{ax.reason(mx)[:50]}]")
+                            n += 1
+                walk(child, path + "." + name)
+
+    walk(spec, "")
+    return n
